@@ -127,7 +127,7 @@ ATOMS_MORE = ['FooUnknown', 'FooSkip', 'FooObj', 'GSList*', 'GArray*', 'GByteArr
               'GVariant*', 'GQuark', 'FooE']
 ANNS_QUICK = ['', '(skip)', '(transfer none)', '(transfer full)', '(scope call)', '(element-type utf8)',
               '(element-type gpointer)', '(type FooUnknown)', '(element-type FooUnknown)', '(element-type FooSkip)',
-              '(nullable)', '(out)', '(type Foo.NoSuch)', '(element-type Foo.NoSuch)', '(type GLib.NoSuch)']
+              '(nullable)', '(out)', '(type Foo.NoSuch)', '(element-type Foo.NoSuch)', '(type GLib.NoSuch)', '(type Nope.NoSuch)']
 ANNS_MORE = ['(type utf8)', '(type FooSkip)', '(type FooVaCb)', '(array)', '(scope async)', '(transfer container)',
              '(element-type Foo.Obj)', '(element-type GLib.List)', '(type GLib.List(FooUnknown))',
              '(type GLib.HashTable(utf8,FooSkip))', '(inout)', '(closure)', '(not nullable)',
@@ -424,6 +424,18 @@ def part_d(tier):
                               'note': '%s: %s (shadowed demoted: %s)' % (b, ann, bad_first)})
             com = ENV_COMMENTS + [blk(b, ident='(rename-to %s)' % a), blk(a, ident='(rename-to %s)' % b)]
             cases.append({'part': 'D', 'decls': d, 'comments': com, 'dump': None, 'note': 'mutual rename-to'})
+    # (virtual SLOT) on a method (documented use), and on a static function / constructor (documented
+    # for methods only: a misplaced annotation, outcome UNSPECIFIED for the invoker rule)
+    for spec, nm, misuse in ((fn('foo_thing_other', 'void', [('FooThing*', 'self'), ('int', 'x')]), 'foo_thing_other', None),
+                             (fn('foo_thing_stat', 'void', [('int', 'x')]), 'foo_thing_stat', ['invoker']),
+                             (fn('foo_thing_new', 'FooThing*', []), 'foo_thing_new', ['invoker'])):
+        for slot in ('vf', 'nosuch'):
+            d = CLASS_DECLS_HEAD + ENV + [
+                st('_FooThingClass', [['f', 'parent_class', 'GObjectClass'],
+                                      ['fcb', 'vf', 'void', [['FooThing*', 'self'], ['int', 'x']], False]]),
+                GET_TYPE, spec]
+            cases.append({'part': 'D', 'decls': d, 'comments': ENV_COMMENTS + [blk(nm, ident='(virtual %s)' % slot)],
+                          'dump': dump_xml(), 'note': '%s: (virtual %s)' % (nm, slot), 'misuse': misuse})
     # properties with accessors and exotic types; vfuncs with invokers
     ptypes = ['gint', 'gchararray', 'gboolean', 'FooNoSuch', 'GStrv', 'GHashTable', 'GPtrArray', 'FooThing', 'gpointer',
               'GObject', 'glong', 'gint64', 'GVariant', 'GArray']
@@ -489,6 +501,8 @@ def classify(finding, root):
         if 'field holds a callback' in msg:
             kind = 'inline-callback'
         detail = ':' + kind
+    elif rule == 'element-type-missing':
+        detail = ':bare-gpointer' if 'bare gpointer' in msg else ':without-element-type'
     elif rule == 'type-forbidden':
         detail = ':' + msg.split(' in an ')[0].replace(' ', '-')
     elif rule == 'index-range':
@@ -557,6 +571,9 @@ def _work(chunk):
         if f.musts and live and dead:
             part.nontrivial(case['note'])
         for fd in f:
+            if case.get('misuse') and fd[0] in case['misuse']:
+                part.add(unspecified=1)
+                continue
             key = 'gen:%s:%s' % (case['part'], classify(fd, root))
             _keep(best, key, '%s at %s: %s [%s]' % (fd[0], fd[1], fd[2], case['note']), case)
         if len(part.samples) < 2 and dead:
@@ -627,6 +644,7 @@ def run(ctx):
     chunks = rotate(chunked(cases, 64), ctx.seed)
     for r in pmap(_work, chunks):
         ctx.merge(r)
+    _stable_first(ctx)
     ctx.assumptions += [
         'symbol trees instead of C text (vt/scan/fake.py); only declaration orders valid in C are enumerated',
         'miniature dependency GIRs deps/{GLib,GObject,Gio}-2.0.gir; references into them that they do not define, and '
@@ -638,6 +656,13 @@ def run(ctx):
     if ctx.cov.get('musts', 0) < 10000 or len(ctx._outcomes) < 30 or len(ctx._nontrivial) < 100:
         raise HarnessBroken('vacuous exploration: musts=%s outcomes=%d nontrivial=%d' % (
             ctx.cov.get('musts'), len(ctx._outcomes), len(ctx._nontrivial)))
+
+
+def _stable_first(ctx):
+    """core keeps the first violation per key: make that the smallest case, independent of dispatch order"""
+    import json
+    ctx.violations.sort(key=lambda v: (v[0], len(json.dumps(v[2], sort_keys=True, default=repr)),
+                                       json.dumps(v[2], sort_keys=True, default=repr)))
 
 
 def replay(ctx, case):
